@@ -1,0 +1,42 @@
+//go:build verif
+
+package encoding
+
+//@ # The table builders are straight-line code after a zeroing loop; they are marked inline so that callers and lemmas
+//@ # see the actual table contents (symbolic execution of the real body), not a hand-written copy of them.
+//@ func MakeEncodingArray inline
+//@   loop 1:
+//@     invariant forallb(c, byteArray[c] == 0)
+//@ func MakeEncodingArrayHardGaps inline
+//@   loop 1:
+//@     invariant forallb(c, byteArray[c] == 0)
+//@ func MakeDecodingArray inline
+//@   loop 1:
+//@     invariant forallb(c, byteArray[c] == "")
+//@ func MakeEncodedScoreArray inline
+//@   loop 1:
+//@     invariant forallb(c, byteArray[c] == 0)
+//@ func MakeScoreArray inline
+//@   loop 1:
+//@     invariant forallb(c, byteArray[c] == 0)
+
+//@ # C03/C07 L1: the bitwise test used everywhere, (a & b) < 16, is exactly disjointness of the denoted base sets.
+//@ lemma EA_accepts [C03,C16]: forallb(c, accepted(c) == (MakeEncodingArray()[c] != 0))
+//@ lemma EA_disjoint [C03,C07]: forallb(c, forallb(d, implies(accepted(c) && accepted(d), ((MakeEncodingArray()[c] & MakeEncodingArray()[d]) < 16) == ((bases(c) & bases(d)) == 0))))
+//@ lemma EAH_accepts [C03,C16]: forallb(c, accepted(c) == (MakeEncodingArrayHardGaps()[c] != 0))
+//@ lemma EAH_disjoint [C03]: forallb(c, forallb(d, implies(accepted(c) && accepted(d), ((MakeEncodingArrayHardGaps()[c] & MakeEncodingArrayHardGaps()[d]) < 16) == ((basesHard(c) & basesHard(d)) == 0))))
+//@ # L2: letter case never matters
+//@ lemma EA_case [C03,C16]: forallb(c, MakeEncodingArray()[c] == MakeEncodingArray()[upper(c)] && MakeEncodingArrayHardGaps()[c] == MakeEncodingArrayHardGaps()[upper(c)])
+//@ # L3: decoding an encoded symbol gives the (upper-case) symbol back, in both gap modes
+//@ lemma DA_roundtrip [C03,C16]: forallb(c, implies(accepted(c), MakeDecodingArray()[MakeEncodingArray()[c]] == symstr(upper(c)) && MakeDecodingArray()[MakeEncodingArrayHardGaps()[c]] == symstr(upper(c))))
+//@ # C07: "resolved" (a & 8 == 8) means exactly A/C/G/T; on resolved symbols a|b == 200 is {A,G} and a|b == 56 is {C,T}
+//@ lemma EA_resolved [C07,C10,C08]: forallb(c, implies(accepted(c), ((MakeEncodingArray()[c] & 8) == 8) == isACGT(c)))
+//@ lemma EA_same [C07]: forallb(c, forallb(d, implies(isACGT(c) && isACGT(d), (MakeEncodingArray()[c] == MakeEncodingArray()[d]) == (upper(c) == upper(d)))))
+//@ lemma EA_purine [C07]: forallb(c, forallb(d, implies(isACGT(c) && isACGT(d) && upper(c) != upper(d), ((MakeEncodingArray()[c] | MakeEncodingArray()[d]) == 200) == ((upper(c) == 'A' && upper(d) == 'G') || (upper(c) == 'G' && upper(d) == 'A')))))
+//@ lemma EA_pyrimidine [C07]: forallb(c, forallb(d, implies(isACGT(c) && isACGT(d) && upper(c) != upper(d), ((MakeEncodingArray()[c] | MakeEncodingArray()[d]) == 56) == ((upper(c) == 'C' && upper(d) == 'T') || (upper(c) == 'T' && upper(d) == 'C')))))
+//@ # C06/C16: completeness score = 12 / number of denoted bases, indexed by the encoded symbol
+//@ lemma score_encoded [C16,C06]: forallb(c, implies(accepted(c), MakeEncodedScoreArray()[MakeEncodingArray()[c]] == MakeScoreArray()[c]))
+//@ # the readers only ever produce images of accepted characters: the 17 soft codes plus 4 (hard gap)
+//@ lemma codes_image [C07,C16]: forallb(c, implies(accepted(c), isCode(MakeEncodingArray()[c]) && isCode(MakeEncodingArrayHardGaps()[c])))
+//@ # symmetry of the per-column tests (so snp and raw are symmetric in their arguments)
+//@ lemma col_symmetric [C07]: forallb(a, forallb(b, ((a & b) < 16) == ((b & a) < 16) && (((a & 8) == 8 && a == b) == ((b & 8) == 8 && b == a))))
